@@ -145,12 +145,12 @@ PROPS.update({
             "level_text": ("`C14_refines`: for every history of invocations, elapsed times and corruptions, the outputs of the file-based cache model (hit iff a file exists, is not older than the timeout - never for a negative timeout - and parses; written under the key values after the invocation; not written when the result has messages) equal the outputs of an abstract store keyed by (call site, key tuple), by a simulation proof over the operation list - under `KeyEncodingInjective`, the hypothesis the proof forces; `C14_never_stale`; `C14_key_collision` decides that the encoding is not injective in general (listed finding). "
                            "Correspondence: every output (which real invocation's result is returned, whether a real invocation happened) of generated histories against the real library with a private cache directory; the abstract-store oracle is evaluated on the real outputs."),
             "level_note": CACHE_NOTE},
-    "C15": {"modules": ["Carapace.Props.C15"], "ops": [("crashwrite", {"quick": 120, "thorough": 4000}), ("rawcache", {"quick": 60, "thorough": 600})],
+    "C15": {"modules": ["Carapace.Props.C15", "Carapace.Props.C15Doc"], "ops": [("crashwrite", {"quick": 120, "thorough": 4000}), ("rawcache", {"quick": 60, "thorough": 600})],
             "rule": "for an entry of 1-6 candidates (Action export JSON or raw bytes), with or without an expired complete previous entry of the same or a different shape and length, the real write path is run under RLIMIT_FSIZE = k for EVERY byte offset k from 0 to the entry length + 1 (the write fails part-way with EFBIG, exactly as on a full disk), then a reader goes through the real cache; non-trivial = every case (each enumerates ~150-250 offsets); distinct = distinct input digest",
             "assumptions": ["a kill between syscalls and a reader concurrent with the write leave the same intermediate file states as a write that fails after k bytes (in-place protocol: O_TRUNC, then the bytes in order); kernel-level atomicity of rename(2) is trusted where a rename protocol is used",
-                            "`hprefix` (a proper prefix of an export document does not decode) is a property of encoding/json that is validated on the real code at every byte offset, not proved"],
+                            "a proper prefix of an export document does not decode: proved for the decoder model (`C15_prefix_rejected`); for the real encoding/json decoder it is validated on the real code at every byte offset of generated documents"],
             "claimed": True, "engine": "cache",
-            "level_text": ("`C15_action_cache`: for every previous entry and every point at which the in-place write of a document stops, a reader gets nothing usable, the complete previous entry or the complete new entry - given that a proper prefix of the document does not decode; `write_is_in_place` / `loadE_decodes_whole_file` tie the protocol shape to the source (regenerated call lists of internal/cache.Write and LoadE); `C15_raw_cache_counterexample` decides that the raw byte cache serves a fragment (listed finding), `C15_raw_cache_rename` that a temp-file + rename protocol would not. "
+            "level_text": ("`C15_action_cache_export` (C15Doc.lean): for every document the encoder model writes, every previous state of the entry and every point at which the single `os.WriteFile` stops, a reader that decodes with the decoder model `parseExport` gets nothing usable, the previous entry as it was, or the complete new document - no hypothesis on the decoder is left: `C15_prefix_rejected` proves that no proper prefix of `marshalExport v m vs` decodes (component by component: `expect_trunc`, `readLit_trunc` / `parseString_trunc`, `parseElems_trunc` / `parseArray_trunc`, `opts_trunc` for the optional fields and the closing brace of a candidate - a cut field name is taken for an absent field and the candidate then fails at its brace -, `seq_parseRawValue`, `valuesText_trunc`), and `C13_document_roundtrip` gives the complete case. The decoder model is tied to the real ActionImport on the real bytes (op exportrt), the real LoadE is run at every byte offset (op crashwrite). " + "`C15_action_cache`: for every previous entry and every point at which the in-place write of a document stops, a reader gets nothing usable, the complete previous entry or the complete new entry - given that a proper prefix of the document does not decode; `write_is_in_place` / `loadE_decodes_whole_file` tie the protocol shape to the source (regenerated call lists of internal/cache.Write and LoadE); `C15_raw_cache_counterexample` decides that the raw byte cache serves a fragment (listed finding), `C15_raw_cache_rename` that a temp-file + rename protocol would not. "
                            "Runtime part, searched exhaustively per case: the real write path is stopped at every byte offset and a reader goes through the real cache."),
             "level_note": CACHE_NOTE},
 })
